@@ -356,6 +356,7 @@ func Run(clients []func(), schedule []uint16, maxSteps int) *RunResult {
 	lastGrant = make([]int64, maxTasks)
 	onceReset()
 	chanReset()
+	condReset()
 	{
 		h := uint64(1469598103934665603)
 		for _, v := range schedule {
